@@ -248,6 +248,13 @@ class IH5MFRecord(IH5Record):
         self._manifest = mf
         mf.save(self._manifest_filepath(self._files[-1].filename))
 
+    # Override to also remove the manifest sidecar files of the removed containers
+    @classmethod
+    def delete_files(cls, record: Path):
+        for file in cls.find_files(Path(record)):
+            cls._manifest_filepath(str(file)).unlink(missing_ok=True)
+        super().delete_files(record)
+
     @classmethod
     def create_stub(
         cls,
